@@ -10,7 +10,7 @@ spec = json.load(open(sys.argv[1]))
 c = sqlite3.connect(spec["path"], isolation_level=None, timeout=0, uri=spec["path"].startswith("file:"))
 c.execute("PRAGMA journal_mode=%s" % spec["journal_mode"]).fetchall()
 c.execute("PRAGMA cache_size=%d" % spec.get("cache_size", 3))
-c.execute("PRAGMA synchronous=%s" % spec.get("synchronous", "FULL"))
+c.execute("PRAGMA synchronous=%s" % (spec.get("synchronous") or "FULL"))
 c.execute("BEGIN")
 for s in spec["stmts"]:
     try:
